@@ -305,7 +305,19 @@ func (c *channel) reconnect(maxRetries float64) {
 	var retries float64
 	for {
 		var err error
-		c.streamMut.Lock()
+		// The receiver holds the read lock for as long as it waits for messages
+		// on a working stream. Hence, only wait for the write lock while the
+		// stream is broken; otherwise someone else has already re-created it.
+		for !c.streamMut.TryLock() {
+			if !c.streamBroken.get() {
+				return
+			}
+			select {
+			case <-time.After(time.Millisecond):
+			case <-c.parentCtx.Done():
+				return
+			}
+		}
 		// check if stream is already up
 		if !c.streamBroken.get() {
 			// do nothing because stream is up
@@ -323,7 +335,7 @@ func (c *channel) reconnect(maxRetries float64) {
 		c.streamMut.Unlock()
 		c.setLastErr(err)
 		if retries >= maxRetries && maxRetries > 0 {
-			c.streamBroken.set()
+			// streamBroken is still set, unless someone else has re-created the stream
 			return
 		}
 		delay := float64(backoffCfg.BaseDelay)
